@@ -13,6 +13,8 @@ G_CJ = [2042, 2044, 2046, 2048]
 G_B = [4090, 4092, 4094, 4096]
 G_J = [1048568, 1048572, 1048576, 1048580]
 G_BEYOND = [2097156]
+G_CB2 = [258, 260, 262, 264]       # just beyond the reach of c.beqz / c.bnez
+G_CJ2 = [2050, 2052, 2054, 2056]   # just beyond the reach of c.j / c.jal
 # far call/tail distances whose low 12 bits sit around 0x800 (where %hi rounds up): 0x1007fc .. 0x100804 from a call at 0
 G_HILO = [1050612, 1050614, 1050616, 1050620]
 
@@ -38,9 +40,9 @@ PLANS = {
             'thorough': [('values', 4, [G_NEAR]), ('values', 3, [G_CB, G_CJ, G_B, G_J])]},
     'C09': {'quick': [('aligns', 4, [[]]), ('aligns', 3, [G_NEAR]), ('datamix', 3, [[3]])],
             'thorough': [('aligns', 5, [[]]), ('aligns', 4, [G_NEAR, G_CJ]), ('datamix', 4, [[3]])]},
-    'C12': {'quick': [('control', 3, [G_NEAR, G_CJ]), ('values', 3, [G_NEAR, G_CJ]), ('far', 3, [G_J]), ('far', 4, [G_HILO]), ('literals', 2, [[]]), ('abs', 4, [[]]), ('oddalign', 4, [[]])],
+    'C12': {'quick': [('control', 3, [G_NEAR, G_CJ]), ('values', 3, [G_NEAR, G_CJ]), ('far', 3, [G_J]), ('far', 4, [G_HILO[2:3]]), ('literals', 2, [[]]), ('abs', 4, [[]]), ('absedge', 5, [[258, 262, 2050, 2054]]), ('oddalign', 4, [[]])],
             'thorough': [('control', 4, [G_NEAR, G_CB]), ('values', 4, [G_NEAR]), ('values', 3, [G_CJ, G_B, G_J]), ('far', 4, [G_CB, G_CJ, G_B, G_J, G_HILO]), ('literals', 3, [[]]),
-                         ('abs', 5, [[]]), ('oddalign', 5, [[]])]},
+                         ('abs', 5, [[]]), ('absedge', 6, [G_CB2, G_CJ2]), ('oddalign', 5, [[]])]},
     'C20': {'quick': [('literals', 2, [[]]), ('control', 3, [G_NEAR, G_CJ]), ('aligns', 3, [[]]), ('values', 3, [G_NEAR])],
             'thorough': [('literals', 3, [[]]), ('control', 4, [G_NEAR, G_CJ]), ('aligns', 4, [[]]), ('far', 4, [G_CB, G_J]), ('values', 4, [G_NEAR])]},
 }
